@@ -68,6 +68,7 @@ fn ack_mode(good: u32) -> impl Strategy<Value = AckMode> {
         1 => Just(AckMode::Max),
         2 => any::<u32>().prop_map(AckMode::Rand),
         2 => (0u8..5).prop_map(AckMode::OtherFlow),
+        3 => near_delta().prop_map(AckMode::Near),
     ]
 }
 
@@ -188,15 +189,7 @@ pub fn run_case(c: &Case, st: &mut Stats, mode: &Mode) -> Check {
                 let fi = *f as usize % n;
                 let fl = &flows[fi];
                 let cookie = cookies[fi];
-                let ackno = match ack {
-                    AckMode::Good => cookie.wrapping_add(1),
-                    AckMode::Cookie => cookie,
-                    AckMode::Plus2 => cookie.wrapping_add(2),
-                    AckMode::Zero => 0,
-                    AckMode::Max => 0xffff_ffff,
-                    AckMode::Rand(r) => *r,
-                    AckMode::OtherFlow(g) => cookies[*g as usize % n].wrapping_add(1),
-                };
+                let ackno = ack.value(cookie, match ack { AckMode::OtherFlow(g) => cookies[*g as usize % n], _ => 0 });
                 let p = pay.bytes(true);
                 let sq = match seq {
                     SeqMode::Cont => next_seq[fi],
@@ -287,15 +280,7 @@ pub fn run_case(c: &Case, st: &mut Stats, mode: &Mode) -> Check {
             Op::Bare { f, flags, seq, ack } => {
                 let fi = *f as usize % n;
                 let cookie = cookies[fi];
-                let ackno = match ack {
-                    AckMode::Good => cookie.wrapping_add(1),
-                    AckMode::Cookie => cookie,
-                    AckMode::Plus2 => cookie.wrapping_add(2),
-                    AckMode::Zero => 0,
-                    AckMode::Max => 0xffff_ffff,
-                    AckMode::Rand(r) => *r,
-                    AckMode::OtherFlow(g) => cookies[*g as usize % n].wrapping_add(1),
-                };
+                let ackno = ack.value(cookie, match ack { AckMode::OtherFlow(g) => cookies[*g as usize % n], _ => 0 });
                 let out = sut.frame(&flows[fi].seg(*seq, ackno, *flags, &[]));
                 st.class(&format!("op:bare:{}:{}", match *flags { x if x == F_ACK => "ack", x if x == F_RST => "rst", _ => "fin-ack" }, if ackno == cookie.wrapping_add(1) { "ack=cookie+1" } else { "other-ack" }));
                 unvalidated_frames += 1;
